@@ -328,6 +328,44 @@ def run(res, tier):
                        'element after the shift) and still reports success' % (f.q, refp[-1].get('n')))
     if n_ag < 1:
         raise AnalysisBroken('ALIAS-GUARD: no in-place shifting method found')
+    # ---- QUEUE-SELF: q.Op(q).  A method that reads its `const Queue &` argument by logical index while it moves the items of *this cannot be run on itself: after the first
+    # AddHead()/InsertItemAt()/Remove*() the same index names a different item.  The methods divert `&queue == this` to a temporary copy; that diversion must not depend on anything else.
+    SHIFTERS = ('AddHead', 'AddHeadAndGet', 'InsertItemAt', 'RemoveHead', 'RemoveHeadMulti', 'RemoveItemAt', 'RemoveItemsAt', 'ReverseItemOrdering', 'Sort', 'Normalize')
+    res.rule('QUEUE-SELF', 'in a Queue method with a `const Queue<ItemType> &` parameter, a call that moves the existing items of *this (AddHead, InsertItemAt, Remove*, …) while that parameter is read by '
+                           'index is reached only on paths where `&parameter == this` was tested and found false', floor=1)
+    n_qs = 0
+    for f in sorted(funcs, key=lambda f: f.line):
+        qps = [p_ for p_ in f.params if re.search(r'^const (muscle::)?Queue<.*> ?&$', f.ptype(p_).strip())]
+        for qp in qps:
+            sites = []
+            for c in f.walk():
+                if c['k'] != 'CXXMemberCallExpr' or (c.get('q') or '').split('::')[-1] not in SHIFTERS:
+                    continue
+                rc = c.receiver()
+                if rc is not None and A.strip_casts(rc)['k'] != 'CXXThisExpr':
+                    continue
+                reads_p = any(x.is_call() and re.search(r'::(operator\[\]|GetItemAt\w*|Head|Tail|HeadPointer)$', x.get('q') or '') and x.receiver() is not None and A.strip_casts(x.receiver()).get('d') == qp['d'] for x in c.walk()) or \
+                    any(x['k'] == 'CXXOperatorCallExpr' and (x.get('q') or '').endswith('operator[]') and len(x['ch']) > 1 and A.strip_casts(x['ch'][1]).get('d') == qp['d'] for x in c.walk())
+                if reads_p:
+                    sites.append(c)
+            for c in sites:
+                n_qs += 1
+                paths, complete = C.paths_between(f, (f.entry, -1), P.pos_of(f, c))
+                ok = complete and bool(paths)
+                for asg in paths:
+                    tested_false = False
+                    for (cid, truth) in asg.items():
+                        for (l_, op_, r_) in A.rel_forms(f.nodes[cid], truth):
+                            if op_ == '!=' and l_['k'] == 'CXXThisExpr' and r_['k'] == 'UnaryOperator' and r_.get('op') == '&' and A.strip_casts(r_['ch'][0]).get('d') == qp['d']:
+                                tested_false = True
+                    ok = ok and tested_false
+                res.ob('QUEUE-SELF', f.where(c), '%s: %s(%s[…]) runs only when &%s != this' % (f.q.split('::')[-1], (c.get('q') or '').split('::')[-1], qp.get('n'), qp.get('n')), ok, function=f.q,
+                       key='QUEUE-SELF|%s|%s' % (f.q.split('<')[0] + '::' + f.q.split('::')[-1], (c.get('q') or '').split('::')[-1]), how='%d path(s) from the entry' % len(paths),
+                       message='%s calls %s() with items read from `%s` by index on a path where `%s` can be *this: each call moves the items of *this, so the next index reads a different item '
+                               '(q.AddHeadMulti(q) on [1,2,3] with spare capacity yields [1,1,3,1,2,3] instead of [1,2,3,1,2,3])'
+                               % (f.q, (c.get('q') or '').split('::')[-1], qp.get('n'), qp.get('n')))
+    if n_qs < 1:
+        raise AnalysisBroken('QUEUE-SELF: no method that moves items while reading a Queue parameter was found (AddHeadMulti expected)')
     res.explanation = ('Static decision of one structural invariant of Queue, per forced instantiation: IsPerItemClearNecessary() is folded to its per-type constant and the CFG is pruned accordingly; for owning item types '
                        'every reachable decrease of _itemCount is followed by a store of the default item into the vacated slot (Clear() resets all slots before FastClear()); for trivial item types the two places '
                        'where EnsureSizeAux raises _itemCount over unassigned slots are preceded by default-store loops. Equivalence with an ideal deque is not decided.')
